@@ -31,6 +31,9 @@ type Scenario struct {
 	// DeadlockKey, if non-empty, makes a deadlock outcome a violation with that key
 	// (harness bodies that expect parked server loops finish normally instead).
 	DeadlockKey string
+	// HorizonKey, if non-empty, makes an execution that reaches the step horizon (a thread
+	// spinning for ever, so that the harness never gets to its oracle) a violation with that key.
+	HorizonKey string
 	// MaxExec caps the number of executions of this scenario in one process (0 = none).
 	MaxExec int64
 }
@@ -96,6 +99,10 @@ func failKeys(x vsched.ExecResult, sc Scenario) []vsched.Failure {
 		}
 		fs = append(fs, vsched.Failure{Key: "panic", Msg: x.Panic})
 		_ = first
+	case vsched.Horizon:
+		if sc.HorizonKey != "" {
+			fs = append(fs, vsched.Failure{Key: sc.HorizonKey, Msg: "the execution never became quiescent within the step horizon (a thread keeps spinning)"})
+		}
 	case vsched.Deadlock:
 		if sc.DeadlockKey != "" {
 			fs = append(fs, vsched.Failure{Key: sc.DeadlockKey, Msg: "no thread can make progress: " + strings.Join(x.Stuck, "; ")})
